@@ -490,6 +490,73 @@ def gen_rle(rng):
     return cols, rows
 
 
+def gen_merged_table(rng):
+    """a table the way office applications write merged cells: the head carries number-columns/rows-spanned, the cells it
+    covers are table:covered-table-cell elements, stored as ONE repeated run where neighbours are alike (set_span never
+    writes that), styled or not, spans preferably touching the right / bottom edge; trailing empty cells and rows possible.
+    Returns (odfdo Table parsed from the XML, description)."""
+    from odfdo import Element
+
+    w, h = rng.randint(2, 6), rng.randint(1, 5)
+    sparse = rng.random() < 0.5        # mostly empty sheets: rows whose last cells are empty, so that the merged row is the widest one
+    vals = [[((None if rng.random() < 0.8 else "a") if sparse else rng.choice([None, None, "a", "b", 7]),
+              (None if rng.random() < 0.9 else "ce1") if sparse else rng.choice([None, None, "ce1"])) for _ in range(w)] for _ in range(h)]
+    kind = [["cell"] * w for _ in range(h)]
+    span = {}
+    areas = []
+    for _ in range(rng.randint(1, 2)):
+        x = rng.choice([rng.randrange(w), max(0, w - rng.randint(1, 3))])
+        y = rng.randrange(h)
+        z = w - 1 if rng.random() < 0.6 else rng.randrange(x, w)
+        tt = rng.choice([y, y, min(h - 1, y + 1), h - 1])
+        if (x, y) == (z, tt) or any(kind[j][i] != "cell" or (i, j) in span for j in range(y, tt + 1) for i in range(x, z + 1)):
+            continue
+        st = rng.choice([None, "ce1", "ce1"])
+        for j in range(y, tt + 1):
+            for i in range(x, z + 1):
+                kind[j][i] = "covered"
+                vals[j][i] = (None, st)
+        kind[y][x] = "cell"
+        vals[y][x] = (rng.choice([None, "t", "t"]), st)
+        span[(x, y)] = (z - x + 1, tt - y + 1)
+        areas.append((x, y, z, tt))
+    tail_cols = rng.choice([0, 0, 1, 3])
+    parts = ['<table:table table:name="M">', f'<table:table-column table:number-columns-repeated="{w + tail_cols}"/>' if w + tail_cols > 1 else "<table:table-column/>"]
+    for j in range(h):
+        parts.append("<table:table-row>")
+        i = 0
+        while i < w:
+            k = i
+            while (k + 1 < w and kind[j][k + 1] == kind[j][i] and same(vals[j][k + 1], vals[j][i]) and (k + 1, j) not in span and (i, j) not in span):
+                k += 1
+            n = k - i + 1
+            v, st = vals[j][i]
+            tag = "table:covered-table-cell" if kind[j][i] == "covered" else "table:table-cell"
+            at = f' table:number-columns-repeated="{n}"' if n > 1 else ""
+            if st:
+                at += f' table:style-name="{st}"'
+            if (i, j) in span:
+                cs, rs = span[(i, j)]
+                at += f' table:number-columns-spanned="{cs}" table:number-rows-spanned="{rs}"'
+            if v is None:
+                parts.append(f"<{tag}{at}/>")
+            elif isinstance(v, str):
+                parts.append(f'<{tag} office:value-type="string"{at}><text:p>{v}</text:p></{tag}>')
+            else:
+                parts.append(f'<{tag} office:value-type="float" office:value="{v}"{at}><text:p>{v}</text:p></{tag}>')
+            i = k + 1
+        if tail_cols and rng.random() < 0.7:
+            parts.append(f'<table:table-cell table:number-columns-repeated="{tail_cols}"/>' if tail_cols > 1 else "<table:table-cell/>")
+        parts.append("</table:table-row>")
+    if rng.random() < 0.4:
+        n = rng.randint(1, 3)
+        parts.append(f'<table:table-row table:number-rows-repeated="{n}"><table:table-cell table:number-columns-repeated="{w + tail_cols}"/></table:table-row>'
+                     if n > 1 and w + tail_cols > 1 else "<table:table-row><table:table-cell/></table:table-row>")
+    parts.append("</table:table>")
+    xml = "".join(parts)
+    return Element.from_tag(xml), {"merged_xml": xml, "areas": areas}
+
+
 def pick_index(rng, n, neg_ok=True):
     """positions weighted towards run boundaries, the edge and beyond"""
     r = rng.random()
